@@ -12,5 +12,25 @@ for c in $CHECKS; do
   out=$(cd /verif && VERIF_REPO=$M timeout 1500 python3 checks/$c.py 2>&1); rc=$?
   echo "== seeded/$S check $c: exit $rc"
   echo "$out" | grep -v "^KNOWN-FINDING\|^note:" | cut -c1-300 | head -8
+  printf '%s' "$out" > /var/tmp/run_seed_out.$$
+  python3 - "$S" "$c" "$rc" /var/tmp/run_seed_out.$$ <<'PY'
+import json, sys, os, re
+S, c, rc, f = sys.argv[1:]
+out = open(f, errors="replace").read()
+p = "/verif/seeded/%s/detection.json" % S
+d = json.load(open(p)) if os.path.exists(p) else {}
+d.setdefault("results", {})
+vl = [l for l in out.splitlines() if l.startswith("VIOLATION")]
+desc = [l for l in out.splitlines() if l and not l.startswith(("VIOLATION", "KNOWN-FINDING", "note:"))]
+d["results"][c] = {"exit": int(rc), "violations": len(vl),
+                   "with_concrete_input": sum(1 for l in vl if "no-failing-input-found" not in l),
+                   "first": (desc[0][:300] if desc else "")}
+d["caught_by"] = sorted(k for k, v in d["results"].items() if v["exit"] == 1 and v["violations"] > 0)
+best = [v for k, v in sorted(d["results"].items()) if v["exit"] == 1 and v["violations"] > 0]
+d["how"] = ("; ".join("%s: %d VIOLATION line(s), %d with a concrete failing input — %s" % (k, v["violations"], v["with_concrete_input"], v["first"][:160])
+                      for k, v in sorted(d["results"].items()) if v["exit"] == 1 and v["violations"] > 0)) or "not caught by: " + ", ".join(sorted(d["results"]))
+json.dump(d, open(p, "w"), indent=1)
+PY
+  rm -f /var/tmp/run_seed_out.$$
 done
 rm -rf $M
